@@ -65,8 +65,13 @@ func c06report(c *runner.Ctx, ec *echoCfg, res *echoResult) {
 	}
 	faulted := ec.writeCutAt >= 0 || ec.nodeCloseAfter >= 0 || ec.closeSessionAfter >= 0
 	// ("no connection available" is a legitimate immediate refusal when every stream id of the only connection is taken)
+	// The driver may also close a connection on its own (six failed heartbeats, TimeoutLimit), which depends on
+	// timing and load; what can be decided is that a connection-closed outcome needs a connection that was closed.
 	if !faulted && res.outcomes["conn-closed"] > 0 {
-		c.Violation("C06:unexplained-connection-error", fmt.Sprintf("%d calls ended with a connection-closed class error although no connection was faulted or closed in this scenario", res.outcomes["conn-closed"]), wit)
+		c.Add("conn_closed_outcomes_without_scripted_fault", int64(res.outcomes["conn-closed"]))
+		if res.connsClosedBeforeClose == 0 {
+			c.Violation("C06:unexplained-connection-error", fmt.Sprintf("%d calls ended with a connection-closed class error although no connection was closed by either side before Session.Close", res.outcomes["conn-closed"]), wit)
+		}
 	}
 	if !res.closeReturned {
 		c.Violation("C06:close-did-not-return", "Session.Close did not return", wit)
